@@ -55,8 +55,9 @@ func (n *VPLSNLRI) decodeFromBytes(data []byte, options ...*MarshallingOption) e
 		return NewMessageError(BGP_ERROR_UPDATE_MESSAGE_ERROR, BGP_ERROR_SUB_MALFORMED_ATTRIBUTE_LIST, nil, "Not all VPLS NLRI bytes available")
 	}
 	if length == 12 { // BGP-AD
-		// BGP-AD is not supported yet
-		return nil
+		// BGP-AD is not supported yet: refuse it rather than hand back a
+		// half-filled NLRI (no RD, a length that is not the one consumed)
+		return NewMessageError(BGP_ERROR_UPDATE_MESSAGE_ERROR, BGP_ERROR_SUB_MALFORMED_ATTRIBUTE_LIST, nil, "BGP-AD VPLS NLRI is not supported")
 	}
 	if len(data) < 19 {
 		return NewMessageError(BGP_ERROR_UPDATE_MESSAGE_ERROR, BGP_ERROR_SUB_MALFORMED_ATTRIBUTE_LIST, nil, "Not all VPLS NLRI bytes available")
